@@ -251,7 +251,12 @@ fn enable_service_file(output_path: &Path, service: &SystemdUnitFile) {
             if !inside {
                 warn!("Ignoring Alias {p:?}: not a relative path inside the output directory");
             }
-            inside
+            // an alias with the name of the service itself would replace the generated file
+            let own_name = p.as_os_str() == service.file_name();
+            if own_name {
+                warn!("Ignoring Alias {p:?}: it is the name of the service itself");
+            }
+            inside && !own_name
         })
         .collect();
     symlinks.append(&mut alias);
